@@ -1933,7 +1933,7 @@ fn balance_key(addr: &[u8]) -> Vec<u8> {
     k
 }
 
-const TAMPER_KINDS: u32 = 25;
+const TAMPER_KINDS: u32 = 26;
 
 fn tamper_name(t: u32) -> &'static str {
     match t {
@@ -1962,6 +1962,7 @@ fn tamper_name(t: u32) -> &'static str {
         22 => "error_code",
         23 => "bank_path_truncated_to_subroot",
         24 => "other_state_chain_closed_by_a_surplus_op",
+        25 => "longer_key_sharing_the_requested_prefix",
         101 => "absent_in_empty_bank_store",
         _ => "forged_value_for_absent_account",
     }
@@ -2173,6 +2174,20 @@ impl BalNode {
                 resp.code = *ctx.pick("tamper.code", &[1u32, 18, 38]);
                 resp.log = "query failed".into();
             }
+            25 => {
+                // the honest proof of a committed key that merely begins with the requested one
+                // (denomination "utiax" of the same account)
+                let mut k2 = key.clone();
+                k2.push(b'x');
+                match self.honest.bank_proof(&k2) {
+                    Some(ep) => {
+                        value = ep.value.clone();
+                        opkey0 = ep.key.clone();
+                        ep0 = ep;
+                    }
+                    None => applied = 0,
+                }
+            }
             _ => {
                 // present an inner node of the bank tree as the bank root
                 if ep0.path.len() >= 2 {
@@ -2278,6 +2293,14 @@ fn gen_state(rng: &mut crate::kernel::rng::Xoshiro, addrs: &[[u8; 20]], extra_ke
             _ => rng.next_u64(),
         };
         bank.insert(balance_key(a), amount.to_string().into_bytes());
+        if a[0] % 2 == 0 {
+            // a denomination whose name extends "utia": its key begins with the utia key
+            // (no rng draw: the other fixtures stay as they were)
+            let mut k = balance_key(a);
+            k.push(b'x');
+            let other_amount = if amount > 1000 { amount - 1 } else { amount + 1 };
+            bank.insert(k, other_amount.to_string().into_bytes());
+        }
         if rng.below(3) == 0 {
             // a second denomination of the same account
             let mut k = balance_key(a);
